@@ -94,9 +94,39 @@ def main(argv=None) -> int:
     return run_property(a.prop, a.repo, a.tier, seed, write_evidence=not a.no_evidence)
 
 
+class _QuietPipe:
+    """stdout that survives a reader that went away (`./check C01 | head -1`): the verdict is the exit code, not the text."""
+
+    def __init__(self, raw):
+        self.raw, self.dead = raw, False
+
+    def write(self, text):
+        if not self.dead:
+            try:
+                return self.raw.write(text)
+            except BrokenPipeError:
+                self.dead = True
+        return len(text)
+
+    def flush(self):
+        if not self.dead:
+            try:
+                self.raw.flush()
+            except BrokenPipeError:
+                self.dead = True
+
+    def __getattr__(self, name):
+        return getattr(self.raw, name)
+
+
 if __name__ == "__main__":
+    sys.stdout = _QuietPipe(sys.stdout)
     try:
-        sys.exit(main())
+        rc_ = main()
+        sys.stdout.flush()
+        if sys.stdout.dead:
+            os.dup2(os.open(os.devnull, os.O_WRONLY), 1)  # nothing more to say at interpreter shutdown
+        sys.exit(rc_)
     except SystemExit:
         raise
     except Exception:  # pragma: no cover
